@@ -212,7 +212,7 @@ def parse_R(out):
     m = re.search(r"R\s*=\s*(\[.*?\])\s*:\s*list", out, re.S)
     if not m:
         return None
-    return [(int(a), int(b)) for a, b in re.findall(r"\((\d+),\s*(\d+)\)", m.group(1))]
+    return [(int(a), int(b)) for a, b in re.findall(r"\((\d+)(?:%N)?,\s*(\d+)\)", m.group(1))]
 
 
 # ----------------------------------------------------------------------------
